@@ -16,7 +16,7 @@ No verdict depends on wall-clock speed: quiescence is reached by round trips
 (sockets are FIFO), never by sleeping; every blocking wait has a watchdog whose
 expiry is INCONCLUSIVE.  See design-notes/C19.md.
 """
-import json, os, random, struct, subprocess, sys, time
+import json, os, random, socket, struct, subprocess, sys, time
 
 VERIF = os.path.dirname(os.path.dirname(os.path.abspath(__file__)))
 if VERIF not in sys.path:
@@ -380,6 +380,34 @@ def gen_fault_cases(lay, ioc, seed, tier):
         S.append({"kind": "junk", "state": rng.choice(["S0", "S1", "S2"]), "n": rng.choice([3, 8, 40, 992, 2000]),
                   "rseed": rng.getrandbits(32), "end": "close"})
 
+    # 6. a well-formed request written slowly: its first bytes, then frames are captured (and queued for this very
+    #    client when it holds services), then the rest.  The completed request must be served like any other.
+    slow = [("MSG_TYPE_SERVICE_REQ", {"services": 0x4, "strict": 0}), ("MSG_TYPE_SERVICE_REQ", {"services": 0, "strict": 0, "reset": 1}),
+            ("MSG_TYPE_SERVICE_REQ", {"services": 0x3, "strict": 0, "reset": 1}),
+            ("MSG_TYPE_CHN_TOKEN_REQ", {}), ("MSG_TYPE_CHN_NOTIFY_REQ", {"notify_flags": m.F_FLUSH}),
+            ("MSG_TYPE_CHN_IOCTL_REQ", {}), ("MSG_TYPE_CHN_SUSPEND_REQ", {})]
+    for (t, over) in slow:
+        n = len(m.valid(t, over))
+        cuts = sorted(set([1, 4, lay.hdr - 1, lay.hdr, lay.hdr + 1, lay.hdr + 4, n - 1]))
+        if not quick:
+            cuts = list(range(1, n))
+        for cut in cuts:
+            if not (0 < cut < n):
+                continue
+            for st in ("S2", "S1"):
+                if quick and st == "S1" and cut not in (4, lay.hdr, n - 1):
+                    continue
+                for ticks in ((1,) if quick else (1, 3)):
+                    c = {"kind": "slow", "type": t, "over": over, "cut": cut, "ticks": ticks, "state": st, "end": "close"}
+                    W.append(c)
+                    if st == "S2":
+                        S.append(dict(c))
+
+    # 7. a subscriber that stops reading until the daemon's socket to it is congested (a data message half written,
+    #    the daemon only waits for writability), then goes away: the daemon's write fails hard
+    for i in range(8 if quick else 60):
+        W.append({"kind": "congest", "state": "S2", "frames": 150 + 10 * (i % 4), "end": ("close", "close", "halfclose")[i % 3]})
+
     for i, c in enumerate(W):
         c["id"] = i
     for i, c in enumerate(S):
@@ -648,6 +676,12 @@ class FaultBatch:
             if t == "MSG_TYPE_CHN_IOCTL_REQ" and f == "arg_size":
                 over = {"arg_size": v, "_arg_len": m.get_ioctl[0]["size"]}
             return [(m.valid(t, over), None)], t, "field-%s-%s" % (f, vc or val_class(v))
+        if k == "slow":
+            data = m.valid(c["type"], c.get("over") or None)
+            part = "hdr" if c["cut"] < lay.hdr else ("hdr-only" if c["cut"] == lay.hdr else "body")
+            return [(data, None)], c["type"], "slow-%s-t%d" % (part, c["ticks"])
+        if k == "congest":
+            return [], "SLICED_IND", "congest-%s" % c["end"]
         if k == "junk":
             r = random.Random(c["rseed"])
             return [(bytes(r.getrandbits(8) for _ in range(c["n"])), None)], "JUNK", "junk-%s" % c["end"]
@@ -739,6 +773,18 @@ class FaultBatch:
         try:
             st, helper = self.enter_state(c, case["state"])
             dropped_early = False
+            if case["kind"] == "slow":
+                self.run_slow(c, case, chunks[0][0], st)
+                chunks = []
+            if case["kind"] == "congest" and self.wit is not None:
+                try:
+                    c.s.setsockopt(socket.SOL_SOCKET, socket.SO_RCVBUF, 2048)
+                except OSError:
+                    pass
+                for _ in range(case["frames"]):
+                    self.wit.tick(1)            # the witnesses read in lock-step, this client never does
+                out.count("congestion_frames", case["frames"])
+                out.count("congested_subscribers")
             for data, want in chunks:
                 if want is None:
                     if c.send(data) < 0:
@@ -806,6 +852,71 @@ class FaultBatch:
         if outcome != "x":
             out.count("connection_%s_by_daemon" % outcome)
         self.after_case()
+
+    def run_slow(self, c, case, data, st):
+        """first part of a well-formed request, frames, the rest: the request must be answered (or the connection
+        dropped - the statement allows that for any client), and a subscriber must go on receiving frames"""
+        out, rig, lay = self.out, self.rig, self.lay
+        prop = self.batch.get("prop", "C19")
+        cut = case["cut"]
+        if c.send(data[:cut]) < 0:
+            return
+        rig.barrier()
+        for _ in range(case["ticks"]):
+            if self.wit is not None:
+                self.wit.tick(1)
+            else:
+                rig.tick(1)
+                rig.barrier()
+        self.alive_or_raise("frames captured while a request was half written")
+        if c.send(data[cut:]) < 0:
+            out.count("slow_request_connection_dropped")
+            return
+        want = REPLY.get(case["type"])
+        ids = [lay.type[w] for w in want]
+        # no waiting on the clock: after two barriers the daemon's main loop has served this socket at least twice
+        # since the last byte arrived, so the reply (or the end-of-file) is in the socket now or will never be
+        ty, body, got_reply = None, None, False
+        for _ in range(3):
+            rig.barrier()
+            for (t2, b2) in c.poll():
+                if t2 in ids and not got_reply:
+                    ty, body, got_reply = t2, b2, True
+            if got_reply or c.eof:
+                break
+        if not got_reply and not c.eof:
+            self.alive_or_raise("waiting for the reply to a slowly written request")
+            self.v("model:%s:slow-request-not-answered" % prop,
+                   "a well-formed %s written in two pieces (%d + %d bytes) with %d frame(s) captured in between was neither answered "
+                   "nor the connection closed (state %s)" % (short(case["type"]), cut, len(data) - cut, case["ticks"], st))
+            raise CaseAbort()
+        out.count("slow_requests")
+        if not got_reply:
+            self.alive_or_raise("a slowly written request")
+            out.count("slow_request_connection_dropped")
+            return
+        out.count("slow_requests_answered")
+        # still subscribed?  (not after a request that gave all services up, not without services)
+        over = case.get("over") or {}
+        subscribed = st == "S2" and not (case["type"] == "MSG_TYPE_SERVICE_REQ" and over.get("reset") and not over.get("services"))
+        if subscribed and lay.type.get("MSG_TYPE_SLICED_IND") is not None:
+            c.poll()
+            before = sum(1 for ty2, _ in c.msgs if ty2 == lay.type["MSG_TYPE_SLICED_IND"])
+            for _ in range(2):
+                if self.wit is not None:
+                    self.wit.tick(1)
+                else:
+                    rig.tick(1)
+                    rig.barrier()
+            rig.barrier()
+            c.poll()
+            after = sum(1 for ty2, _ in c.msgs if ty2 == lay.type["MSG_TYPE_SLICED_IND"])
+            out.count("slow_request_frames_expected", 2)
+            out.count("slow_request_frames_received", after - before)
+            if after - before != 2 and not c.eof:
+                self.v("model:%s:slow-writer-frames" % prop,
+                       "after its slowly written %s was answered the subscriber received %d frame(s) for 2 captured (state %s, cut %d)"
+                       % (short(case["type"]), after - before, st, cut))
 
     def after_case(self):
         out, rig = self.out, self.rig
